@@ -12,25 +12,38 @@ import struct
 LENS = [255, 256, 257, 4095, 4096, 4097, 65535, 65536, 65537]
 
 
-def _units(T, L, astral_at_end=False):
+def _units(T, L, astral_at_end=False, astral_at=None):
     if T in ("char", "signed char", "unsigned char"):
         return bytes((i % 254) + 1 for i in range(L))
     s = "".join(chr(0x21 + (i % 0x5d)) if i % 7 else chr(0x100 + (i % 0x300)) for i in range(L))
     if astral_at_end and L >= 1:
         s = s[:-1] + "\U0001F600"
+    if astral_at is not None and L >= 1:
+        s = s[:astral_at] + "\U0001F600" + s[astral_at + 1:]
     return s
 
 
 def c15(ctx):
+    """For each type x length x position of an astral character: the open array round trip and one field store
+    (as before), and -- added for the audit -- the exact-fit array (no terminator, nothing written at L), the
+    array one unit too short (must raise), item assignment x[1] = s on T[3][L+1] between canary rows, for the
+    three one-byte character types as well, with the astral character first / in the middle / last."""
     import cffi
     ffi = cffi.FFI()
     n = 0
-    for T, usz in (("char", 1), ("wchar_t", 4), ("char16_t", 2), ("char32_t", 4)):
-        ffi.cdef("struct big_%s { %s pre[2]; %s a[65544]; %s post[2]; };" % (T, T, T, T))
+    nexact = nshort = nitem = 0
+    FILLS = {1: b"\x5a", 2: b"\x5a\x5a", 4: b"\xa5\xa5\x05\x00"}
+    for T, usz in (("char", 1), ("signed char", 1), ("unsigned char", 1), ("wchar_t", 4), ("char16_t", 2),
+                   ("char32_t", 4)):
+        tag = T.replace(" ", "_")
+        ffi.cdef("struct big_%s { %s pre[2]; %s a[65544]; %s post[2]; };" % (tag, T, T, T))
+        fill = FILLS[usz]
         for L in LENS:
-            for astral in ((False, True) if usz != 1 else (False,)):
-                s = _units(T, L, astral)
-                nunits = L if not (astral and usz == 2) else L + 1
+            for astral in (("none", "first", "middle", "last") if usz != 1 else ("none",)):
+                at = {"none": None, "first": 0, "middle": L // 2, "last": L - 1}[astral]
+                s = _units(T, L, astral_at=at)
+                has_pair = astral != "none" and usz == 2
+                nunits = L + 1 if has_pair else L
                 n += 1
                 bad = None
                 try:
@@ -39,16 +52,16 @@ def c15(ctx):
                         bad = ("open_length", len(p), nunits + 1)
                     elif ffi.string(p) != s:
                         bad = ("string", None, None)
-                    elif not (astral and usz == 2) and ffi.string(p, nunits - 1) != s[:-1]:
+                    elif not (has_pair and astral == "last") and ffi.string(p, nunits - 1) != s[:-1]:
                         bad = ("string_maxlen", None, None)
-                    elif ffi.unpack(p, nunits) != s:
+                    elif ffi.unpack(p, nunits) != (s if T in ("char", "wchar_t", "char16_t", "char32_t") else
+                                                   [c - 256 if c > 127 and T == "signed char" else c for c in s]):
                         bad = ("unpack", None, None)
-                    elif p[nunits] not in (b"\x00", "\x00"):
+                    elif p[nunits] not in (b"\x00", "\x00", 0):
                         bad = ("terminator", repr(p[nunits]), None)
                     # field assignment over non-zero memory: terminator written, the rest untouched
-                    q = ffi.new("struct big_%s *" % T)
+                    q = ffi.new("struct big_%s *" % tag)
                     buf = ffi.buffer(q)
-                    fill = {1: b"\x5a", 2: b"\x5a\x5a", 4: b"\xa5\xa5\x05\x00"}[usz]
                     buf[:] = fill * (len(buf) // usz)
                     q.a = s
                     raw = bytes(ffi.buffer(q.a))
@@ -61,12 +74,72 @@ def c15(ctx):
                         bad = ("field_wrote_past_terminator", units[nunits + 1].hex(), None)
                     if bad is None and bytes(ffi.buffer(q.post)) != fill * 2:
                         bad = ("field_overflow", None, None)
+                    del q, buf
+                    # the units the stores below must produce (no lone surrogates in these strings, so the
+                    # codecs are the model)
+                    image = s if usz == 1 else s.encode("utf-16-le" if usz == 2 else "utf-32-le")
+                    if len(image) != nunits * usz:
+                        raise AssertionError("harness: image has %d bytes" % len(image))
+                    if bad is None and bytes(ffi.buffer(p)) != image + b"\x00" * usz:
+                        bad = ("open_units", None, None)
+                    # exact fit: all units, no terminator, same size
+                    if bad is None:
+                        nexact += 1
+                        e = ffi.new("%s[%d]" % (T, nunits), s)
+                        if bytes(ffi.buffer(e)) != image:
+                            bad = ("exact_units", None, None)
+                        elif ffi.string(e) != s:
+                            bad = ("exact_string", None, None)
+                        del e
+                    # one unit too short: refused
+                    if bad is None:
+                        nshort += 1
+                        try:
+                            ffi.new("%s[%d]" % (T, nunits - 1), s)
+                            bad = ("too_short_accepted", nunits - 1, None)
+                        except Exception:
+                            pass
+                    # item assignment between canary rows: string, one terminator, nothing else
+                    if bad is None:
+                        nitem += 1
+                        row = nunits + 1
+                        x = ffi.new("%s[3][%d]" % (T, row))
+                        xb = ffi.buffer(x)
+                        xb[:] = fill * (3 * row)
+                        x[1] = s
+                        got = bytes(xb)
+                        if got != fill * row + image + b"\x00" * usz + fill * row:
+                            r1 = got[row * usz:2 * row * usz]
+                            if got[:row * usz] != fill * row or got[2 * row * usz:] != fill * row:
+                                bad = ("item_canary_row_overwritten", None, None)
+                            elif r1[nunits * usz:] != b"\x00" * usz:
+                                bad = ("item_no_terminator", r1[nunits * usz:].hex(), None)
+                            else:
+                                bad = ("item_units", None, None)
+                        elif ffi.string(x[1]) != s:
+                            bad = ("item_string", None, None)
+                        else:
+                            # and refused without a write when the row is one unit too short
+                            x2 = ffi.new("%s[3][%d]" % (T, nunits - 1))
+                            x2b = ffi.buffer(x2)
+                            x2b[:] = fill * (3 * (nunits - 1))
+                            try:
+                                x2[1] = s
+                                bad = ("item_too_short_accepted", None, None)
+                            except Exception:
+                                if bytes(x2b) != fill * (3 * (nunits - 1)):
+                                    bad = ("item_too_short_wrote", None, None)
+                            del x2b, x2
+                        del xb, x
                 except Exception as e:
                     bad = ("raises", "%s: %s" % (type(e).__name__, e), None)
                 if bad:
                     ctx.violation({"kind": "large_" + bad[0], "elem": T, "family": "large"},
-                                  {"large": True, "T": T, "L": L, "astral_last": astral, "what": list(bad)})
+                                  {"large": True, "T": T, "L": L, "astral": astral, "what": list(bad)})
     ctx.count("large_string_cases", n)
+    ctx.count("large_exact_fit", nexact)
+    ctx.count("large_too_short", nshort)
+    ctx.count("large_item_assignment", nitem)
     return n
 
 
@@ -177,6 +250,46 @@ def c16(ctx):
                 except Exception as e:
                     checks.append(("wrong_exception", "slice assign " + type(e).__name__))
                 x[1:1 + M] = vals
+        # overlapping slice assignment (audit gap 3): source and target are views of the same array, shifted by
+        # one item.  Same type and length -> one memmove: the OLD values arrive (a memcpy or a forward copy
+        # loop shows reliably at this size).  The image is written and read through the bytearray.
+        def fill():
+            old = [(k * 2654435761 + 12345) % 2 ** 31 for k in range(N)]
+            struct.pack_into("<%di" % N, ba, 16, *old)
+            return old
+
+        def items():
+            return list(struct.unpack_from("<%di" % N, ba, 16))
+        def ov_a():
+            x[1:N] = x[0:N - 1]
+            return old[:1] + old[:N - 1]
+
+        def ov_b():
+            x[0:N - 1] = x[1:N]
+            return old[1:] + old[N - 1:]
+
+        def ov_c():
+            x[0:N - 1] = iter(x[1:N])       # reads ahead of the writes: lazy and materialised agree
+            return old[1:] + old[N - 1:]
+
+        def ov_d():
+            q = x + 1                       # the same through plain-pointer slices (audit gap 1), negative start
+            q[0:N - 1] = q[-1:N - 2]
+            return old[:1] + old[:N - 1]
+
+        def ov_e():
+            pv = (x + 1)[-1:N - 1]
+            if not (len(pv) == N and pv[N - 1] == x[N - 1] and pv[0] == x[0]):
+                raise ValueError("pointer slice view differs")
+            return old
+        for f, what in ((ov_a, "x[1:N] = x[0:N-1]"), (ov_b, "x[0:N-1] = x[1:N]"), (ov_c, "x[0:N-1] = iter(x[1:N])"),
+                        (ov_d, "q = x+1; q[0:N-1] = q[-1:N-2]"), (ov_e, "(x+1)[-1:N-1]")):
+            old = fill()
+            try:
+                want = f()
+                checks.append(None if items() == want else ("overlap_assign", what))
+            except Exception as e:
+                checks.append(("overlap_assign_raises", "%s: %s" % (what, type(e).__name__)))
         # pointer arithmetic far away
         p = x + 0
         checks.append(None if (p + (N - 1))[0] == x[N - 1] and (p + N) - p == N else ("pointer_arith", "far"))
